@@ -377,6 +377,7 @@ static int service_port(const char *w, long ns, char *portbuf, size_t n)
     else if (!strcmp(w, "odd") && (ns & 64)) { sp = "sctp"; probe_hit("service_proto_missing"); }
     else if (!strcmp(w, "amanda") && (ns & 128)) { port = 10080; sp = "udp"; probe_hit("service_with_five_digit_port"); }
     else if (!strcmp(w, "top") && (ns & 128)) { port = 65535; sp = "tcp"; probe_hit("service_with_five_digit_port"); }
+    else if (!strcmp(w, "dual") && (ns & 128)) { port = 1000; sp = "tcp"; probe_hit("service_listed_under_two_protocols"); }      /* listed as udp/2000 first and tcp/1000 second: tcp is asked for first */
     if (sp && ((!strcmp(sp, "tcp") && (ns & 1)) || (!strcmp(sp, "udp") && (ns & 2)))) {
         snprintf(portbuf, n, "%d", port);
         probe_hit(!strcmp(sp, "tcp") ? "service_found_tcp" : "service_found_udp_only");
@@ -460,6 +461,7 @@ static void c14_set_ns(long ns)
     if (ns & 32) simns_add_proto("ip", 0);
     if (ns & 64) simns_add_serv("odd", "sctp", 99);          /* service whose protocol is not in the table */
     if (ns & 128) { simns_add_serv("amanda", "udp", 10080); simns_add_serv("top", "tcp", 65535); }      /* the widest port numbers there are */
+    if (ns & 128) { simns_add_serv("dual", "udp", 2000); simns_add_serv("dual", "tcp", 1000); }           /* one name under two protocols with different ports, the less preferred one listed first */
 }
 static void exec_c14(const plan_t *p)
 {
@@ -547,7 +549,7 @@ static void gen_word(rng_t *r, char *out, int lo, int hi, const char *alpha)
 }
 static void gen_c14(plan_t *p, rng_t *r)
 {
-    static const char *protos[] = { "http", "ftp", "tcp", "udp", "ip", "dns", "odd", "unix", "mailto", "x9", "pop3", "file", "amanda", "top",
+    static const char *protos[] = { "http", "ftp", "tcp", "udp", "ip", "dns", "odd", "unix", "mailto", "x9", "dual", "file", "amanda", "top",
                                     "HTTP", "Ftp", "X9", "abcdefghijklmnopqrstuvwxyz01234", "abcdefghijklmnopqrstuvwxyz012345", "abcdefghijklmnopqrstuvwxyz0123456" };      /* upper case; 31, 32, 33 characters */
     static const int paints[] = { 0x00, 0xFF, 0xA5, 0x5A, 'a' };
     static const char *portfmt[] = { "%u", "%u", "%u", "%u", "%04u", "%07u", "%05u" };
